@@ -66,7 +66,27 @@ class Hist:
         rng = self.rng
         kind = start or rng.choice(["tree", "tree", "aff", "poly"])
         self.m = rng.choice([1, 2, 2, 3])
-        if kind == "tree":
+        if kind == "wedge":
+            # a narrow but fat unbounded wedge between two rows of magnitude ~1e8 whose apex is not representable: the LP
+            # answers the apex, contains() rejects it (|row| * rounding > 1e-8) and the repair fails - the node stays
+            # Indeterminate and must be kept with everything below it
+            assert self.n == 2
+            S = rng.choice([1e8, 3e7, 2.5e8])
+            eps = rng.choice([1e-2, 2e-2, 5e-3])
+            ax, ay = rng.choice([(1.0 / 3.0, 3.141592653589793), (-2.0 / 7.0, 2.718281828459045), (10.0 / 3.0, -1.0 / 7.0)])
+            upper = ([[FR(-eps * S), FR(S)]], [FR((ay - eps * ax) * S)])          # (y-ay) - eps (x-ax) <= 0
+            lower = ([[FR(-eps * S), FR(-S)]], [FR((-ay - eps * ax) * S)])        # -(y-ay) - eps (x-ax) <= 0
+            if rng.random() < 0.5:      # swap the axes
+                upper = ([[upper[0][0][1], upper[0][0][0]]], upper[1])
+                lower = ([[lower[0][0][1], lower[0][0][0]]], lower[1])
+            seq = iter([upper, lower] + [self.dec_gen_in(rng, 1, 2) for _ in range(4)])
+            inner = rng.choice(["T", "T", ("D", ("T", "T"))])                      # the wedge region: a terminal or a subtree
+            other = "T" if (self.total or rng.random() < 0.7) else None
+            sh = ("D", (other, ("D", ("T", inner))))
+            ts, _ = gen.tree_steps("t", sh, self.n, self.m, rng, dec_gen=lambda r_, rows, n_: next(seq))
+            self.steps += ts
+            self.word.append("wedge")
+        elif kind == "tree":
             d = rng.choice([1, 2, 2, 3])
             sh = gen.random_shape(rng, d, 2, total=self.total or rng.random() < 0.6)
             ts, _ = gen.tree_steps("t", sh, self.n, self.m, rng, dec_gen=self.dec_gen_in)
